@@ -800,7 +800,8 @@ PROPS = {
                      # the statement that is executed is the one generated for the call's arguments, also under concurrent use
                      cache_run_spec(proj_cache_events, ["C17"], nq=60, nt=600),
                      # the read half of the round trip at value level for every zoo type (Get, GetAll, iterator loops)
-                     {"kind": "scan", "n": {"quick": 2000, "thorough": 50000}, "oracle_props": ["C17"]}]},
+                     {"kind": "scan", "n": {"quick": 2000, "thorough": 50000}, "oracle_props": ["C17"]},
+                     {"kind": "determ", "n": {"quick": 150, "thorough": 5000}, "oracle_props": ["C17"]}]},
     "C16": {"uses_genconsts": True,
             "runs": [bind_run(proj_bind_c03, ["C16"], nq=3000), {"kind": "determ", "n": {"quick": 600, "thorough": 20000}, "oracle_props": ["C16"]},
                      cache_run_spec(proj_cache_events, ["C16"], nq=60, nt=600),
@@ -844,7 +845,8 @@ PROPS = {
     "C05": {"uses_genconsts": True, "runs": [bind_run(proj_bind_c05, ["C05"]), tx_run_spec(["C05"], compare=True, nq=200),
                                              # "an alias ... identifies its destination": the aliases of the generated SQL, read back as
                                              # result columns, lead to the destinations (also with other Queries built in between)
-                                             {"kind": "scan", "n": {"quick": 2000, "thorough": 50000}, "oracle_props": ["C05"]}]},
+                                             {"kind": "scan", "n": {"quick": 2000, "thorough": 50000}, "oracle_props": ["C05"]},
+                                             {"kind": "determ", "n": {"quick": 200, "thorough": 5000}, "oracle_props": ["C05"]}]},
     "C07": {"uses_genconsts": True, "runs": [bind_run(proj_bind_c07, ["C07"], nq=8000),
                                              {"kind": "determ", "n": {"quick": 300, "thorough": 10000}, "oracle_props": ["C07"]}]},
     "C08": {"uses_genconsts": True, "runs": [bind_run(proj_bind_c08, ["C08"]),
